@@ -16,7 +16,7 @@ try:
     ovp = os.path.join(tmp, "ov.json")
     json.dump(ov, open(ovp, "w"))
     env = dict(os.environ, GOFLAGS="-mod=mod", GOPROXY="off", GOSUMDB="off", GOTOOLCHAIN="local", VERIF_TIER=tier)
-    timeout = "3000s" if tier == "thorough" else "300s"
+    timeout = "3000s" if tier == "thorough" else "900s"
     p = subprocess.run(["go", "test", "-overlay", ovp, "-vet=off", "-count=1", "-v", "-timeout", timeout, "-run", "TestVerifBounded", "./" + pkg],
                        cwd=repo, env=env, capture_output=True, text=True)
     out = p.stdout + p.stderr
